@@ -185,3 +185,68 @@ def strip_cfg_items(toks, cfgs=("test", "avt_verif")):
 
 def text(toks):
     return " ".join(t for _, t in toks)
+
+
+def split_top(toks, sep=","):
+    """Split a token list on top-level separators."""
+    out, cur, d = [], [], 0
+    for k, t in toks:
+        if k == "punct" and t in "([{":
+            d += 1
+        elif k == "punct" and t in ")]}":
+            d -= 1
+        if d == 0 and k == "punct" and t == sep:
+            out.append(cur)
+            cur = []
+        else:
+            cur.append((k, t))
+    if cur:
+        out.append(cur)
+    return out
+
+
+def parse_match_arms(toks):
+    """toks = contents between the braces of a match; returns list of (pattern toks, body toks).
+    Bodies are either `{ ... }` blocks (returned without braces, flag True) or expressions."""
+    arms = []
+    i = 0
+    while i < len(toks):
+        # pattern up to '=>' at depth 0
+        d = 0
+        j = i
+        while True:
+            k, t = toks[j]
+            if k == "punct" and t in "([{":
+                d += 1
+            elif k == "punct" and t in ")]}":
+                d -= 1
+            elif d == 0 and k == "punct" and t == "=>":
+                break
+            j += 1
+        pat = toks[i:j]
+        j += 1
+        if toks[j] == ("punct", "{"):
+            c = match_close(toks, j)
+            body = toks[j + 1:c]
+            is_block = True
+            j = c + 1
+            if j < len(toks) and toks[j] == ("punct", ","):
+                j += 1
+        else:
+            d = 0
+            s = j
+            while j < len(toks):
+                k, t = toks[j]
+                if k == "punct" and t in "([{":
+                    d += 1
+                elif k == "punct" and t in ")]}":
+                    d -= 1
+                elif d == 0 and k == "punct" and t == ",":
+                    break
+                j += 1
+            body = toks[s:j]
+            is_block = False
+            j += 1
+        arms.append((pat, body, is_block))
+        i = j
+    return arms
